@@ -490,7 +490,7 @@ def hw_small_configs(rep):
     wmax = rep.pick(3, 4)
     for w in range(1, wmax + 1):
         n = 1 << w
-        dws = [1, 2, 3, 4] + ([w + 2] if w + 2 > 4 else [])      # includes data words wider than the register by >= 2 bits
+        dws = [1, 2, 3, 4] + ([w + 2] if w + 2 > 4 and not rep.quick else [])      # includes data words wider than the register by >= 2 bits
         if rep.quick and w == 3:
             xors = [0, 0b011]
         elif w == 4:
